@@ -190,6 +190,8 @@ func factsC12(r *Repo) []Fact {
 		out = append(out, unknownFact("decodeDispatch", "List String", "[]", "serialization.go", "func internalUnmarshal not found"))
 		out = append(out, unknownFact("decodeUsesPointerNum", "List (String × Bool)", "[]", "serialization.go", "func internalUnmarshal not found"))
 		out = append(out, unknownFact("nilChainRecorded", "Bool", "false", "serialization.go", "func internalUnmarshal not found"))
+		out = append(out, c12EncoderFacts(sp)...)
+		out = append(out, c12MapKeyFresh(nil))
 		return out
 	}
 	// top-level `if len(v.X) != 0 / > 0 { … return }` statements in order; the rest is the slice branch
@@ -288,5 +290,101 @@ func factsC12(r *Repo) []Fact {
 	}
 	out = append(out, boolFact("nilChainRecorded", hasField && encRecords && decHonours,
 		"serialization.go: internalStruct.NilElemPointerNum exists, is counted in the `if rv.IsNil()` exit of internalMarshal and is read in the first decode branch"))
+	out = append(out, c12EncoderFacts(sp)...)
+	out = append(out, c12MapKeyFresh(branches["MapKeyType"]))
 	return out
+}
+
+// c12EncoderFacts: two facts about the shape of internalMarshal the model relies on.
+//
+// encodeWalkStateless: the encoder is a function of the tree reflect unfolds — it has the
+// single parameter `v any`, recurses by calling itself with exactly one argument (so nothing
+// travels from one child to the next), and never asks for the identity of a pointer
+// (Pointer / UnsafePointer / UnsafeAddr). The model's `enc` is a structural recursion over the
+// value tree; a shared pointer is therefore written like two equal pointers.
+//
+// typeKeysByExactType: every registry key the encoder writes comes from `rm[<reflect.Type>]`,
+// an exact-type lookup (the model's `keyOf ctx t`): a defined type that is not registered is not
+// written under the key of some other type (e.g. the builtin type of its kind).
+func c12EncoderFacts(sp *Pkg) []Fact {
+	const whereW = "serialization.go internalMarshal: one parameter, recursive calls internalMarshal(<one argument>), no Pointer()/UnsafePointer()/UnsafeAddr()"
+	const whereK = "serialization.go internalMarshal: every `key, ok := …` is an index expression on the registry map rm"
+	md, _ := sp.Func("", "internalMarshal")
+	if md == nil || md.Body == nil {
+		return []Fact{unknownFact("encodeWalkStateless", "Bool", "false", whereW, "func internalMarshal not found"),
+			unknownFact("typeKeysByExactType", "Bool", "false", whereK, "func internalMarshal not found")}
+	}
+	params := 0
+	for _, f := range md.Type.Params.List {
+		if len(f.Names) == 0 {
+			params++
+		}
+		params += len(f.Names)
+	}
+	rec, badRec, identity := 0, 0, 0
+	lookups, badLookups := 0, 0
+	ast.Inspect(md.Body, func(x ast.Node) bool {
+		switch n := x.(type) {
+		case *ast.CallExpr:
+			if id, ok := n.Fun.(*ast.Ident); ok && id.Name == "internalMarshal" {
+				rec++
+				if len(n.Args) != 1 {
+					badRec++
+				}
+			}
+			if se, ok := n.Fun.(*ast.SelectorExpr); ok {
+				switch se.Sel.Name {
+				case "Pointer", "UnsafePointer", "UnsafeAddr":
+					identity++
+				}
+			}
+		case *ast.FuncLit:
+			badRec++ // a closure could carry state between children
+		case *ast.AssignStmt:
+			if len(n.Lhs) == 2 && len(n.Rhs) == 1 && exprString(n.Lhs[0]) == "key" && exprString(n.Lhs[1]) == "ok" {
+				lookups++
+				ix, ok := n.Rhs[0].(*ast.IndexExpr)
+				if !ok || exprString(ix.X) != "rm" {
+					badLookups++
+				}
+			}
+		}
+		return true
+	})
+	return []Fact{
+		boolFact("encodeWalkStateless", params == 1 && rec >= 3 && badRec == 0 && identity == 0, whereW),
+		boolFact("typeKeysByExactType", lookups >= 6 && badLookups == 0, whereK),
+	}
+}
+
+// c12MapKeyFresh: in the map branch of internalUnmarshal every entry is decoded into a key of
+// its own: the `reflect.New(rkt)` the key text is unmarshalled into is created inside the loop
+// over v.MapValues (the model's placeKVs decodes each key text independently of the others).
+func c12MapKeyFresh(branch []ast.Stmt) Fact {
+	const where = "serialization.go internalUnmarshal, map branch: reflect.New(rkt) is called inside the `for … range v.MapValues` body and nowhere else in the branch"
+	if len(branch) == 0 {
+		return unknownFact("mapKeyFreshPerEntry", "Bool", "false", where, "map branch (len(v.MapKeyType) > 0) not found")
+	}
+	isNewKey := func(x ast.Node) bool {
+		c, ok := x.(*ast.CallExpr)
+		return ok && exprString(c.Fun) == "reflect.New" && len(c.Args) == 1 && exprString(c.Args[0]) == "rkt"
+	}
+	inside, total := 0, 0
+	for _, s := range branch {
+		ast.Inspect(s, func(x ast.Node) bool {
+			if isNewKey(x) {
+				total++
+			}
+			if rs, ok := x.(*ast.RangeStmt); ok && exprString(rs.X) == "v.MapValues" {
+				ast.Inspect(rs.Body, func(y ast.Node) bool {
+					if isNewKey(y) {
+						inside++
+					}
+					return true
+				})
+			}
+			return true
+		})
+	}
+	return boolFact("mapKeyFreshPerEntry", inside >= 1 && inside == total, where)
 }
